@@ -56,8 +56,13 @@ func (c *compiler) ProcessForInStat(s ast.ForInStat) {
 	c.DeclareLocal(loopSRegName, sReg)
 	c.DeclareLocal(loopVarRegName, varReg)
 
+	c.DeclareGotoLabelNoLine(breakLblName)
+
 	loopLbl := c.GetNewLabel()
 	must(c.EmitLabelNoLine(loopLbl))
+
+	// The loop variables are local to each iteration
+	c.PushContext()
 
 	nameAttribs := make([]ast.NameAttrib, len(s.Vars))
 	for i, name := range s.Vars {
@@ -84,10 +89,13 @@ func (c *compiler) ProcessForInStat(s ast.ForInStat) {
 		Lsrc: var1,
 		Rsrc: testReg,
 	})
-	endLbl := c.DeclareGotoLabelNoLine(breakLblName)
-	c.emitInstr(s, ir.JumpIf{Cond: testReg, Label: endLbl})
+	contLbl := c.GetNewLabel()
+	c.emitInstr(s, ir.JumpIf{Cond: testReg, Label: contLbl, Not: true})
+	c.emitJump(s, breakLblName) // leaves the scope of this iteration
+	must(c.EmitLabelNoLine(contLbl))
 	c.emitInstr(s, ir.Transform{Dst: varReg, Op: ops.OpId, Src: var1})
 	c.compileBlock(s.Body)
+	c.PopContext()
 
 	c.emitInstr(s, ir.Jump{Label: loopLbl})
 
